@@ -2,11 +2,13 @@
    the real sse.Client/Connection behind a scripted http.RoundTripper.
 
    input : ( cfg steps )
-     cfg  = ( backoff body n<OnRetry set> (opt x<initial Last-Event-ID header>) (opt z<patience>) )
+     cfg  = ( backoff body n<OnRetry set> (opt x<initial Last-Event-ID header>) (opt z<patience>) n<cancelled before> )
        backoff as in the family "backoff"; body = ( n<kind> n<after> n<e> ) with kind 0 = no body,
        1 = http.NoBody, 2 = body without GetBody, 3 = body with GetBody, 4 = GetBody fails with error e
        after [after] successful calls; patience: the context is cancelled inside OnRetry when the wait is
-       at least this long
+       at least this long; cancelled before: the context is done before Connect is called (the first select may
+       take either branch; the scripted RoundTripper, like a real transport, fails a request on a done context with
+       the context's error without serving it, so both branches are the same observation)
      step = ( n0 n<e> )                     Do fails with injected error e
           | ( n1 )                          the context is cancelled inside RoundTrip, Do fails with its error
           | ( n2 n<e> )                     the validator rejects the response with error e
@@ -34,7 +36,7 @@ Definition dec_body (v : val) : body_kind :=
 
 Definition dec_ccfg (v : val) : ccfg :=
   mkccfg (dec_backoff (nth_val 0 v)) (dec_body (nth_val 1 v)) (as_bool (nth_val 2 v))
-         (as_opt as_b (nth_val 3 v)) false (as_opt as_z (nth_val 4 v)).
+         (as_opt as_b (nth_val 3 v)) (as_bool (nth_val 5 v)) (as_opt as_z (nth_val 4 v)).
 
 Definition dec_ending (v : val) : ending :=
   match as_n (nth_val 0 v) with
@@ -213,6 +215,10 @@ Fixpoint walk (mask : tag) (cfg : ccfg) (b : backoff) (steps : list step) (items
 Definition holds_connect (mask : tag) (i o : val) : bool :=
   let cfg := dec_ccfg (nth_val 0 i) in
   let b := spec_backoff (cc_backoff cfg) in
+  if cc_cancel_before cfg
+  then (* C11: the context's error, and nothing is requested *)
+       match as_l (nth_val 0 o) with [] => val_eqb (nth_val 1 o) (VL [enc_cret RCtx]) | _ => false end
+  else
   walk mask cfg b (map dec_step (as_l (nth_val 1 i))) (as_l (nth_val 0 o)) (nth_val 1 o) O [] (bo_initial b) O.
 
 Definition holds_connect_c10 := holds_connect T10.
